@@ -248,6 +248,35 @@ fn check_map(spec: &Spec, d: i64, map: &HitObjects) -> Option<(String, String)> 
             }
         }
     }
+    // the order must be the stable sort of the FILE's lines (not of whatever order the parser state holds): every
+    // line carries a distinguishing x position
+    {
+        let time_of = |t: i64| if t == NEG_ZERO { 0 } else { t };
+        let mut slots: Vec<usize> = (0..spec.objects.len()).collect();
+        slots.sort_by_key(|&s| time_of(spec.objects[s].1)); // stable
+        if slots.len() == map.hit_objects.len() {
+            for (i, (&slot, got)) in slots.iter().zip(&map.hit_objects).enumerate() {
+                let kind = spec.objects[slot].0;
+                let want_x = (16 + 40 * kind + 3 * slot) as f32;
+                let got_x = match &got.kind {
+                    HitObjectKind::Circle(c) => Some(c.pos.x),
+                    HitObjectKind::Slider(s) => Some(s.pos.x),
+                    HitObjectKind::Hold(h) => Some(h.pos_x),
+                    HitObjectKind::Spinner(_) => None,
+                };
+                let kind_ok = matches!(
+                    (&got.kind, kind),
+                    (HitObjectKind::Circle(_), 0 | 1 | 2 | 7 | 8) | (HitObjectKind::Slider(_), 3 | 4 | 9 | 10) | (HitObjectKind::Spinner(_), 5) | (HitObjectKind::Hold(_), 6)
+                );
+                if !kind_ok || got_x.is_some_and(|x| x != want_x) {
+                    return Some((
+                        "unstable-order".into(),
+                        format!("object {i} is not the file's line {slot} (kind {kind}, x {want_x}): got {:?} at x {got_x:?}; equal start times keep file order", std::mem::discriminant(&got.kind)),
+                    ));
+                }
+            }
+        }
+    }
     let cp = RefCp {
         t: map.control_points.timing_points.clone(),
         d: map.control_points.difficulty_points.clone(),
